@@ -57,11 +57,13 @@ def gen_universe(rnd, big=False):
     tasks = []
     small_pool = rnd.random() < 0.3      # many objects share few ids: most attach attempts meet an equal id somewhere
     pool = max(2, n // 2)
+    big = 1000 if rnd.random() < 0.3 else 0      # ids beyond the small-int cache: equal ids are then distinct objects
     for k in range(n):
         if small_pool:
             tid = rnd.randint(1, pool) if rnd.random() < 0.6 else k + 1
         else:
             tid = rnd.randint(1, n) if rnd.random() < 0.25 else k + 1
+        tid += big
         tasks.append({'id': tid, 'name': rnd.choice(NAMES)})
     nw = rnd.choice([1, 1, 2, 2, 3])
     wbs = [({'title': f'W{k}'} if rnd.random() < 0.3 else {}) for k in range(nw)]
@@ -802,6 +804,17 @@ def _links_relative(s0, op):
     return any(x in rel for x in L)
 
 
+def _fresh_key(i):
+    """an object equal to the id but not identical to it (lookup is by equality)"""
+    if isinstance(i, bool):
+        return i
+    if isinstance(i, int):
+        return int(str(i))
+    if isinstance(i, str):
+        return ''.join(list(i))
+    return i
+
+
 def _lookup_checks(u, s1, acc, sh, name, structure_ok=True):
     out = []
     if not structure_ok:
@@ -835,7 +848,7 @@ def _lookup_checks(u, s1, acc, sh, name, structure_ok=True):
             want = [m for m in members if s1['T'][m]['id'] == i]
             acc.count('lookups')
             try:
-                got = w[i]
+                got = w[_fresh_key(i)]
                 res = u.L(got)
             except RuntimeError:
                 res = 'RuntimeError'
